@@ -168,8 +168,10 @@ class SpecError(Exception):
 
 
 # ------------------------------------------------------------------ replay into the implementation
-def run_replay(hbin, defs_path, cases_path, out_path, dump=None, timeout=3600):
+def run_replay(hbin, defs_path, cases_path, out_path, dump=None, timeout=3600, hooks=None, hooks_every=1):
     cmd = [hbin, "replay", "--cases", cases_path, "--out", out_path]
+    if hooks:
+        cmd += ["--hooks", hooks, "--hooks-every", str(hooks_every)]
     if defs_path:
         cmd += ["--defs", defs_path]
     if dump:
@@ -258,3 +260,34 @@ def main_wrap(fn):
     except subprocess.TimeoutExpired as e:
         log("TOOL-TIMEOUT:", e)
         sys.exit(2)
+
+
+def validate_ledger(v, hooks_path, cases_path, tag="ledger"):
+    """impl -> spec for the consumption ledger: hook events of real runs validated by TLC against LedgerTrace.tla;
+    returns (events, runs)"""
+    import re
+    t = run_tlc("LedgerTrace", "LedgerTrace.cfg", env={"TRACE": hooks_path}, workers=1,
+                extra_java="-Xss1g -Dtlc2.tool.queue.IStateQueue=StateDeque", timeout=3600)
+    rej = []
+    for l in open(t["out"], errors="replace"):
+        m = re.search(r'<<"REJECT", (\d+), "(\w+)">>', l)
+        if m:
+            rej.append((int(m.group(1)), m.group(2)))
+    events = runs = 0
+    ends = []          # line number of each end event -> run index
+    with open(hooks_path) as f:
+        for i, l in enumerate(f, 1):
+            events += 1
+            if l.startswith('{"class"'):
+                ends.append((i, json.loads(l)["run"]))
+                runs += 1
+    if rej:
+        cases = list(read_ndjson(cases_path))
+        for line, ev in rej:
+            run = next((r for (i, r) in ends if i >= line), None)
+            c = cases[run] if run is not None and run < len(cases) else {}
+            v.report({"rule": "ledger_protocol", "event": ev},
+                     {"def": c.get("def"), "line": c.get("line"), "event_line": line, "event": ev, "hooks": hooks_path})
+    if not t["ok"]:
+        raise ToolError("LedgerTrace did not complete:\n" + t["tail"])
+    return events, runs
